@@ -4,7 +4,7 @@
 
 use std::str::FromStr;
 
-use chrono::{DateTime, Duration, NaiveDateTime, TimeZone};
+use chrono::{DateTime, Duration, NaiveDate, NaiveDateTime, TimeZone};
 use chrono_tz::Tz;
 use opening_hours::localization::{Coordinates, Country, Localize, NoLocation, TzLocation};
 use opening_hours::{Context, ContextHolidays, DateTimeRange, OpeningHours, DATE_END};
@@ -48,7 +48,7 @@ fn end_or_null(v: Value, is_end: bool) -> Value {
     if is_end { Value::Null } else { v }
 }
 
-fn eval_naive(oh: &OpeningHours<NoLocation>, t: NaiveDateTime, input_tz: Option<Tz>) -> Value {
+fn eval_naive(oh: &OpeningHours<NoLocation>, t: NaiveDateTime, input_tz: Option<Tz>, skip_window: bool) -> Value {
     let st = oh.state(t);
     let ivs = |it: Vec<DateTimeRange<NaiveDateTime>>| -> Vec<Value> {
         it.iter()
@@ -63,11 +63,11 @@ fn eval_naive(oh: &OpeningHours<NoLocation>, t: NaiveDateTime, input_tz: Option<
         "flags": [oh.is_open(t), oh.is_closed(t), oh.is_unknown(t)],
         "next_change": oh.next_change(t).map(|n| attach(n, input_tz)).unwrap_or(Value::Null),
         "intervals": ivs(oh.iter_from(t).take(4).collect()),
-        "intervals_bounded": ivs(oh.iter_range(t, t + Duration::days(3)).take(12).collect()),
+        "intervals_bounded": if skip_window { Vec::new() } else { ivs(oh.iter_range(t, t + Duration::days(3)).take(12).collect()) },
     })
 }
 
-fn eval_aware(oh: &OpeningHours<TzLocation<Tz>>, t: DateTime<Tz>) -> Value {
+fn eval_aware(oh: &OpeningHours<TzLocation<Tz>>, t: DateTime<Tz>, skip_window: bool) -> Value {
     let st = oh.state(t);
     let ivs = |it: Vec<DateTimeRange<DateTime<Tz>>>| -> Vec<Value> {
         it.iter()
@@ -82,7 +82,7 @@ fn eval_aware(oh: &OpeningHours<TzLocation<Tz>>, t: DateTime<Tz>) -> Value {
         "flags": [oh.is_open(t), oh.is_closed(t), oh.is_unknown(t)],
         "next_change": oh.next_change(t).map(|d| aware_json(&d)).unwrap_or(Value::Null),
         "intervals": ivs(oh.iter_from(t).take(4).collect()),
-        "intervals_bounded": ivs(oh.iter_range(t, t + Duration::days(3)).take(12).collect()),
+        "intervals_bounded": if skip_window { Vec::new() } else { ivs(oh.iter_range(t, t + Duration::days(3)).take(12).collect()) },
     })
 }
 
@@ -119,12 +119,14 @@ pub fn core(args: &Args) {
             for d in case["datetimes"].as_array().unwrap() {
                 let naive = NaiveDateTime::parse_from_str(d["wall"].as_str().unwrap(), "%Y-%m-%dT%H:%M:%S").unwrap();
                 let input_tz: Option<Tz> = d["tz"].as_str().filter(|s| *s != "naive").map(|s| s.parse().unwrap());
+                // the driver cannot write the end of a 3-day window starting in the last days of 9999 as a Python datetime
+                let skip_window = naive >= NaiveDate::from_ymd_opt(9999, 12, 29).unwrap().and_hms_opt(0, 0, 0).unwrap();
 
                 let mut rec = match &locale {
                     None => {
                         // no location: evaluated on the wall clock of the input, results carry the input's zone
                         let oh = base.clone().with_context(Context::default().with_holidays(holidays.clone()));
-                        eval_naive(&oh, naive, input_tz)
+                        eval_naive(&oh, naive, input_tz, skip_window)
                     }
                     Some(loc) => {
                         let oh = base.clone().with_context(Context::default().with_holidays(holidays.clone()).with_locale(loc.clone()));
@@ -133,7 +135,7 @@ pub fn core(args: &Args) {
                             // a naive input is a wall-clock time of the context zone
                             None => loc.datetime(naive),
                         };
-                        eval_aware(&oh, t)
+                        eval_aware(&oh, t, skip_window)
                     }
                 };
 
